@@ -235,6 +235,20 @@ def collect_verus_units(prop, repo, scratch, only=None):
     return obls, meta
 
 
+def not_under_contract(repo):
+    """operator / creation-function files for which no sidecar exists (reported in the evidence, nothing is claimed about them)"""
+    covered = set()
+    for sc_path in glob.glob(os.path.join(VERIF, 'contracts', '*.toml')):
+        covered.add(vgen.load_sidecar(sc_path)['file'])
+    out = []
+    for d in ('src/operators', 'src/observables'):
+        for p in sorted(glob.glob(os.path.join(repo, d, '*.rs'))):
+            rel = os.path.relpath(p, repo)
+            if rel not in covered and not rel.endswith('mod.rs'):
+                out.append(rel)
+    return out
+
+
 def scan_assumptions(text, unit):
     found = []
     for kw in ('external_body', 'assume_specification', 'admit(', 'assume(', 'uninterp', 'exec_allows_no_decreases_clause'):
@@ -359,6 +373,7 @@ def run_property(a, prop, scratch, t0):
         o, m = collect_verus_units(prop, snap, scratch, a.only)
         obls += o
         meta.update(m)
+        meta['not_under_contract'] = not_under_contract(snap)
     if 'verus_lemmas' in pl['engines']:
         obls += collect_verus_lemmas(prop, scratch)
     if 'syntactic' in pl['engines']:
@@ -443,6 +458,7 @@ def write_evidence(prop, a, obls, meta, violations, undecided, kf_lines, wall, p
             'by_backend': backends,
             'functions_under_contract': meta.get('functions_under_contract', []),
             'units': meta.get('units', []),
+            'not_under_contract': meta.get('not_under_contract', []),
             'must_fail_twins': {'total': meta.get('twins_total', 0), 'rejected': meta.get('twins_rejected', 0)},
             'known_findings_open': kf_lines,
             'undecided': [o.id for o in undecided],
